@@ -1,6 +1,6 @@
 /* Domain X: numeric and channel list walkers of expression.c.
  * Case:  X <hexbody> <index> <cap>      (body = text between the parentheses of an expression parameter)
- * Observation:  n<res>[,<isRange>,<hexfrom>,<hexto|->,<intfrom>,<intto|->]  c<res>,<errors pushed>[,<isRange>,<dims>,<from v/v/..|->,<to v/v/..|->],<canary ok> */
+ * Observation:  n<res>[,<isRange>,<hexfrom>,<hexto|->,<intfrom>,<intto|->,<dblfrom bits>,<dblto bits|->]  c<res>,<errors pushed>[,<isRange>,<dims>,<from v/v/..|->,<to v/v/..|->],<canary ok> */
 #include "h_env.h"
 
 static const scpi_command_t no_cmds[] = { SCPI_CMD_LIST_END };
@@ -23,6 +23,12 @@ void run_expr(const char *input) {
             if (rng) h_hex(stdout, t.ptr, (size_t) t.len); else printf("-");
             SCPI_ExprNumericListEntryInt(&e.ctx, &param, (int) index, &rng2, &vf, &vt);
             printf(",%d,", vf); if (rng2) printf("%d", vt); else printf("-");
+            {   /* the double variant of the same entry */
+                double df = -7.0, dt = -7.0; scpi_bool_t rng3 = FALSE; uint64_t b;
+                SCPI_ExprNumericListEntryDouble(&e.ctx, &param, (int) index, &rng3, &df, &dt);
+                memcpy(&b, &df, 8); printf(",%016" PRIx64 ",", b);
+                if (rng3) { memcpy(&b, &dt, 8); printf("%016" PRIx64, b); } else printf("-");
+            }
         }
     }
     {   scpi_bool_t rng = FALSE; size_t dims = 777; scpi_expr_result_t r; int k;
